@@ -139,6 +139,7 @@ def run(ck):
     runs += unusual_context_oracle(ck, report)
     runs += feedback_oracle(ck, report, rng, 12 if thorough else 4)
     runs += after_failed_run_oracle(ck)
+    runs += metadata_history_oracle(ck)
     runs += shared_orchestrator_overlap_oracle(ck, 90 if thorough else 40)
     bad, errs = tl.evaluate("C10", texts)
     for k, rc, out in errs:
@@ -364,6 +365,61 @@ def after_failed_run_oracle(ck):
                           "normalised traces differ at %s (second run's pipeline_start carries %s)"
                           % (diff, {k: second[0].get(k) for k in ("run_space_launch_id", "run_space_index") if second and k in second[0]}),
                           {"kind": "after-failed-run", "config": cfg, "detail": detail})
+    return n
+
+
+def metadata_history_oracle(ck):
+    """Direct oracle: every history of at most three steps over {stage metadata on the orchestrator (configure_run_metadata),
+    set metadata on the Pipeline (set_run_metadata), a run that succeeds, a run that fails} on ONE Pipeline + orchestrator,
+    then a successful run (which consumes whatever is pending), then a plain traced run.  The plain run's trace must equal,
+    after normalisation, what a fresh Pipeline writes for the same payload: no earlier step may still be attached to it."""
+    import itertools, os, shutil, tempfile
+    from semantiva.context_processors import ContextType
+    from semantiva.execution.orchestrator.orchestrator import LocalSemantivaOrchestrator
+    from semantiva.pipeline import Payload, Pipeline
+    from semantiva.trace.drivers.jsonl import JsonlTraceDriver
+    pg.setup_impl()
+    cfg = [{"processor": "FloatValueDataSource"}, {"processor": "FloatMultiplyOperation", "parameters": {"factor": 2.0}}]
+
+    def read(path):
+        return [json.loads(l) for l in open(path, encoding="utf-8").read().splitlines() if l.strip()]
+    d = tempfile.mkdtemp(prefix="verif_c10mh_")
+    n = 0
+    try:
+        p2 = os.path.join(d, "fresh.ser.jsonl")
+        Pipeline([dict(c) for c in cfg], trace=JsonlTraceDriver(p2, detail="hash")).process(Payload(None, ContextType({"value": 3.0})))
+        fresh = tl.normalise(read(p2))
+        for k in (1, 2, 3):
+            for h in itertools.product(("stage", "set", "ok", "fail"), repeat=k):
+                p1 = os.path.join(d, "h%d.ser.jsonl" % n)
+                orch = LocalSemantivaOrchestrator()
+                pipe = Pipeline([dict(c) for c in cfg], trace=JsonlTraceDriver(p1, detail="hash"), orchestrator=orch)
+                for j, op in enumerate(h + ("ok",)):
+                    if op == "stage":
+                        orch.configure_run_metadata({"run_space_index": 70 + j, "run_space_context": {"value": 100.0}})
+                    elif op == "set":
+                        pipe.set_run_metadata({"run_space_index": 10 + j, "run_space_context": {"value": 1.0}})
+                    else:
+                        try:
+                            pipe.process(Payload(None, ContextType({"value": 3.0} if op == "ok" else {})))
+                        except Exception:  # noqa
+                            pass
+                k1 = len(read(p1))
+                pipe.process(Payload(None, ContextType({"value": 3.0})))
+                last = tl.normalise(read(p1)[k1:])
+                n += 1
+                diff = tl.first_diff(last, fresh)
+                if diff is not None:
+                    ck.fail_input("C10:trace-differs:plain-run-after-metadata-history:%s" % tl.generic_path(diff),
+                                  "history %s, a successful run, then a plain run on one Pipeline + orchestrator: the plain run's normalised trace "
+                                  "differs from a fresh Pipeline's at %s (its pipeline_start carries %s)"
+                                  % (list(h), diff, {x: last[0].get(x) for x in ("run_space_index", "run_space_context") if last and x in last[0]}),
+                                  {"kind": "metadata-history", "history": list(h) + ["ok", "plain"], "config": cfg})
+                    return n
+    except Exception as ex:  # noqa
+        ck.corr_problem("metadata-history oracle could not run", repr(ex)[:300])
+    finally:
+        shutil.rmtree(d, ignore_errors=True)
     return n
 
 
